@@ -36,8 +36,11 @@ RULE = ("A case is a history: a list of ops executed in one fresh python subproc
         "a theory whose third item fails during extension (must raise). Every intermediate load is judged too (it must "
         "not raise when its limit exists). Classes: fresh-direct ('fresh process, load(T)' singletons: all 43 theories "
         "in the thorough tier, the 17 not above 'real' plus a rotating third of the other 26 in the quick tier; counted "
-        "trivial), import-first, load-first, limit, error-recovery, file-change, cycle, broken. Non-trivial: at least "
-        "one state-touching op before the final load; distinct by the canonical JSON of the history.")
+        "trivial), import-first, load-first, limit, error-recovery, file-change, cycle, broken, reload-same, "
+        "extended-in-place; the shape of each random history (imports first / loads first / failing load / which "
+        "kind of file change / cycle / broken theory) is fixed by a round-robin plan so that no class depends on luck, "
+        "its content is drawn by Hypothesis. Non-trivial: at least one state-touching op before the final load; "
+        "distinct by the canonical JSON of the history.")
 ASSUMPTIONS = [
     "only username='master' (the library directory) is exercised; /repo/users holds no theory files",
     "a file modification always changes the file's mtime (as an edit seconds later does); same-tick edits are out of scope",
@@ -645,7 +648,7 @@ def setup():
 
 
 # ---------------------------------------------------------------- generation
-def history_strategy():
+def history_strategy(shape, variant=None):
     from hypothesis import strategies as st
     small = [t for t in THEORIES if not depends_on_real(t)]
     big = [t for t in THEORIES if depends_on_real(t)]
@@ -690,63 +693,79 @@ def history_strategy():
     import_op = st.sampled_from(MODULES).map(lambda m: ['import', m])
     meta_op = st.just(['metadata'])
     # what app/ide.py does after a load: the loaded theory object is extended in place
-    extend_op = st.integers(0, 2).map(lambda n: ['extend', str(n)])
-    plain_op = st.one_of(import_op, import_op, load_op(), load_op(), bogus_op(), meta_op, extend_op)
-    short = st.lists(plain_op, min_size=0, max_size=2)
+    extend_op = st.sampled_from(['0', '1', '2']).map(lambda n: ['extend', n])
+    any_op = st.one_of(import_op, load_op(), bogus_op(), meta_op, extend_op)
 
     @st.composite
     def file_block(draw, target):
         cl = closure(target)
-        d = draw(st.one_of(st.sampled_from(cl), st.sampled_from(cl[-6:])))   # the file that changes
-        users = [t for t in cl if d in closure(t)]                     # target-side theories that see d
+        near = cl[-6:]
+        kind = variant if variant in ('insert', 'delete', 'add_import', 'touch', 'restore') else \
+            draw(st.sampled_from(['insert', 'delete', 'add_import', 'touch', 'restore']))
+        # deleting from a theory deep below the target makes thousands of later items fail to parse (each with a
+        # formatted traceback): minutes per history.  Deletions stay near the target.
+        def free_for(x):       # theories that x could additionally import: no cycle, and something to contribute
+            return [t for t in THEORIES if x not in closure(t) and t not in closure(x) and CONTENT[t]]
+        if kind == 'delete':
+            pool = near
+        elif kind == 'add_import':
+            pool = [x for x in cl if free_for(x)] or cl
+        else:
+            pool = cl
+        d = draw(st.sampled_from(pool))                                 # the file that changes
+        users = [t for t in cl if d in closure(t)]                      # target-side theories that see d
         warm = draw(st.sampled_from(users + [target]))
         block = [['load', warm, draw(limit_for(warm))]]
-        n = draw(st.integers(1, 2))
-        for _ in range(n):
-            kind = draw(st.sampled_from(['touch', 'insert', 'insert', 'delete', 'delete', 'restore', 'add_import']))
-            if kind in ('touch', 'restore'):
-                block.append([kind, d])
-            elif kind == 'insert':
-                block.append(['insert', d, draw(st.integers(0, len(CONTENT[d]))), str(draw(st.integers(0, 3)))])
-            elif kind == 'delete' and d not in cl[-6:]:
-                # deleting from a theory deep below the target makes thousands of later items fail to parse (each
-                # with a formatted traceback): minutes per history.  Deep files get an insertion instead.
-                block.append(['insert', d, draw(st.integers(0, len(CONTENT[d]))), str(draw(st.integers(0, 3)))])
-            elif kind == 'delete':
-                defs = [i for i, it in enumerate(CONTENT[d]) if it[0].startswith('def') or it[0].startswith('type')]
-                if defs and draw(st.booleans()):
-                    block.append(['delete', d, draw(st.sampled_from(defs))])     # something later items refer to
-                elif CONTENT[d]:
-                    block.append(['delete', d, draw(st.integers(0, len(CONTENT[d]) - 1))])
-                else:
-                    block.append(['touch', d])
-            else:
-                free = [t for t in THEORIES if d not in closure(t) and t not in closure(d)]
-                if free:
-                    block.append(['add_import', d, draw(st.sampled_from(free))])
-                else:
-                    block.append(['touch', d])
-            if draw(st.integers(0, 3)) == 0:
+
+        def ins():
+            return ['insert', d, draw(st.integers(0, len(CONTENT[d]))), draw(st.sampled_from(['0', '1', '2', '3']))]
+        if kind == 'touch':
+            block.append(['touch', d])
+        elif kind == 'insert':
+            block.append(ins())
+        elif kind == 'restore':
+            block.append(ins())
+            if draw(st.booleans()):
                 block.append(['load', warm, None])
+            block.append(['restore', d])
+        elif kind == 'delete':
+            defs = [i for i, it in enumerate(CONTENT[d]) if it[0].startswith('def') or it[0].startswith('type')]
+            if defs and draw(st.booleans()):
+                block.append(['delete', d, draw(st.sampled_from(defs))])     # something later items refer to
+            elif CONTENT[d]:
+                block.append(['delete', d, draw(st.integers(0, len(CONTENT[d]) - 1))])
+            else:
+                block.append(['touch', d])
+        else:
+            free = free_for(d)
+            if free:
+                block.append(['add_import', d, draw(st.sampled_from(free))])
+            else:
+                block.append(['touch', d])
+        if draw(st.booleans()):
+            block.append(draw(st.one_of(st.just(['load', warm, None]), st.just(['touch', d]), meta_op, load_op())))
         return block
 
     @st.composite
     def history(draw):
         target = draw(theory)
         limit = draw(limit_for(target))
-        shape = draw(st.sampled_from(['plain', 'plain', 'plain', 'plain', 'recovery', 'recovery',
-                                      'file', 'file', 'file', 'file', 'cycle', 'broken']))
-        pre = draw(short)
-        if draw(st.integers(0, 2)) == 0:
-            # the very load that will be repeated at the end, then (usually) modified in place
-            pre = pre[:1] + [['load', target, limit]] + ([['extend', '0']] if draw(st.booleans()) else [])
-        if shape == 'plain':
-            ops = pre + [draw(plain_op)]
+        lead = [draw(import_op)] if draw(st.booleans()) else []
+        tail = [draw(any_op)] if draw(st.booleans()) else []
+        if shape == 'imports':
+            ops = [draw(import_op)]
+            if draw(st.booleans()):
+                ops.append(draw(import_op))
+            ops += tail
+        elif shape == 'loads':
+            # often the very load that will be repeated at the end, then modified in place
+            first = ['load', target, limit] if draw(st.booleans()) else draw(load_op())
+            ops = [first] + ([draw(extend_op)] if draw(st.booleans()) else []) + tail
         elif shape == 'recovery':
             # the failing load hits the target or one of its imports, so that whatever it leaves behind matters
-            ops = pre + [draw(bogus_op(draw(st.sampled_from(closure(target)[-4:] + [target]))))] + draw(short)[:1]
+            ops = lead + [draw(bogus_op(draw(st.sampled_from(closure(target)[-4:] + [target]))))] + tail
         elif shape == 'file':
-            ops = pre[:1] + draw(file_block(target)) + draw(st.lists(st.one_of(meta_op, load_op()), max_size=1))
+            ops = lead + draw(file_block(target))
         elif shape == 'cycle':
             n = draw(st.integers(1, 3))
             mid = [['add_cycle', n]]
@@ -756,16 +775,26 @@ def history_strategy():
             if draw(st.booleans()):
                 mid.append(['load_cycle', draw(st.integers(0, n - 1))])
             mid.append(['remove_cycle'])
-            ops = pre + mid + draw(short)[:1]
-        else:
+            ops = lead + mid + tail
+        elif shape == 'broken':
             mid = [['add_broken'], ['load_broken']]
             if draw(st.booleans()):
                 mid.append(['load_broken'])
             if draw(st.booleans()):
                 mid.append(['remove_broken'])
-            ops = pre + mid + draw(short)[:1]
+            ops = lead + mid + tail
+        else:
+            raise ValueError(shape)
         return {'ops': ops, 'final': [target, limit]}
     return history()
+
+
+# what each of a shard's random histories looks like: (shape, variant); the plan is walked round-robin starting at
+# a shard-dependent offset, so that every class is filled whatever the number of histories
+PLAN = [('imports', None), ('file', 'insert'), ('recovery', None), ('loads', None), ('file', 'delete'), ('imports', None),
+        ('file', 'add_import'), ('cycle', None), ('loads', None), ('file', 'touch'), ('recovery', None), ('imports', None),
+        ('file', 'restore'), ('broken', None), ('loads', None), ('file', 'delete'), ('recovery', None), ('imports', None),
+        ('file', 'add_import'), ('loads', None), ('file', 'insert'), ('cycle', None), ('recovery', None), ('imports', None)]
 
 
 def shards(tier):
@@ -801,23 +830,25 @@ def valid_case(case):
 
 def run_shard(desc, seed, tier, H):
     cases = [{'ops': [], 'final': [t, None]} for t in fresh_for(desc, seed)]
-    drawn = []
-    seen = set()
-
-    def body(c):
-        drawn.append(c)
     want = desc['random']
-    # Hypothesis starts every run with the all-minimal example and a few tiny ones (the same in every shard): draw
-    # generously (generation is cheap, execution is not) and keep the last `want` distinct valid histories.
-    harness.hyp_run(history_strategy(), body, 8 * want + 8, seed)
-    for c in reversed(drawn[1:]):
-        key = canon(c)
-        if key in seen or not c['ops'] or not valid_case(c):
-            continue
-        seen.add(key)
-        cases.append(c)
-        if len(seen) >= want:
-            break
+    slots = [PLAN[(desc['i'] * want + j) % len(PLAN)] for j in range(want)]
+    seen = set()
+    for gi, slot in enumerate(sorted(set(slots), key=str)):
+        count = slots.count(slot)
+        drawn = []
+        # Hypothesis starts every run with the all-minimal example and a few tiny ones (the same in every shard):
+        # draw generously (generation is cheap, execution is not) and keep the last `count` distinct valid histories.
+        harness.hyp_run(history_strategy(*slot), drawn.append, 6 * count + 10, seed * 31 + gi)
+        got = 0
+        for c in reversed(drawn[1:]):
+            key = canon(c)
+            if key in seen or not c['ops'] or not valid_case(c):
+                continue
+            seen.add(key)
+            cases.append(c)
+            got += 1
+            if got >= count:
+                break
     # one reference process for everything that is judged against the pristine tree
     pristine = [c['final'] for c in cases if not any(o[0] in FILE_OPS for o in c['ops'])]
     if pristine:
